@@ -373,6 +373,8 @@ pub fn gen_c04(tier: Tier, seed: u64, em: &mut Emitter, cfg: i64) {
         em.emit_k("consts", 43, vec![t as i64]);
     }
     gen_strings(tier, em);
+    // the checked constructors of test_util (scalar helpers, message shorthands)
+    crate::sm::gen_test_util(em);
 }
 
 pub fn gen_c05(tier: Tier, seed: u64, em: &mut Emitter, cfg: i64) {
